@@ -45,6 +45,7 @@ type Block struct {
 	ExtraStrings    []string // unused string table entries
 	UnknownFields   bool     // sprinkle unknown (skippable) fields
 	IndexData       bool     // BlobHeader.indexdata present
+	IndexBytes      int      // size of BlobHeader.indexdata (0: three bytes when IndexData is set)
 	PadBytes        int      // an unknown (skippable) bytes field of this size pads the PrimitiveBlock
 }
 
@@ -130,6 +131,16 @@ type Relation struct {
 	Info       *Info
 	HasMembers bool
 	Members    []Member
+}
+
+func (b *Block) indexLen() int {
+	switch {
+	case b.IndexBytes > 0:
+		return b.IndexBytes
+	case b.IndexData:
+		return 3
+	}
+	return 0
 }
 
 func (b *Block) gran() int64 {
